@@ -72,6 +72,7 @@ def run(ctx, report):
     r_fit = report.rule("R06-fit", floor=17, what="width of the computed check digits = width of the country's check-digit field")
     r_tab = report.rule("R06-table", floor=20, what="results on the probe family equal the reference implementation")
     r_true = report.rule("R06-true", floor=20, what="BBAN-level check returns True or raises InvalidBBANChecksum, nothing else")
+    r_verdict = report.rule("R06-bban-verdict", floor=20, what="BBAN.validate_national_checksum accepts a BBAN exactly when its check digits are the reference ones (probe BBANs, both polarities)")
     ev = Evaluator(facts)
     bban_cls = prog.get("schwifty.bban.BBAN")
     for r in sorted(national, key=lambda x: x.key):
@@ -155,6 +156,7 @@ def run(ctx, report):
         # BBAN-level check
         st = struct_positions(reg, cc)
         _bban_level(ctx, r_true, cc, st, bban_cls, r)
+        _bban_verdicts(ctx, r_verdict, cc, fields, acc, bban_cls, ref, vref)
 
     # a country without algorithm: returns True without raising
     other = next((c for c in sorted(reg.countries) if c not in have and struct_positions(reg, c) and reg.positions(c)), None)
@@ -244,6 +246,70 @@ def _bban_level(ctx, rule, cc, st, bban_cls, r):
             rule.finding(f"{cc}:unchecked", f"BBAN.validate_national_checksum never consults the algorithm registered for {cc}", f.where)
         if "InvalidBBANChecksum" not in excs and not any(not isinstance(e.cls, str) for e in excs.values()):
             rule.finding(f"{cc}:never-rejects", f"the BBAN-level check cannot reject any {cc} BBAN", f.where)
+
+
+def _other_digits(d):
+    if d.isdigit():
+        return f"{(int(d) + 1) % (10 ** len(d)):0{len(d)}d}"
+    return "".join(chr((ord(c) - 65 + 1) % 26 + 65) if c.isalpha() else c for c in d)
+
+
+def _bban_verdicts(ctx, rule, cc, fields, acc, bban_cls, ref, vref):
+    """Concrete BBANs assembled from probe fields, judged through BBAN.validate_national_checksum."""
+    facts = ctx.facts
+    prog = ctx.program
+    reg = ctx.registry
+    it = facts.interp()
+    bank = prog.get("schwifty.bban.BBAN").methods.get("bank")
+    it.intrinsics[bank.qualname] = lambda it_, a, k, n: None
+    n = reg.countries[cc]["bban_length"]
+    nat = fields.get("national_checksum_digits")
+    cases = []
+    for i, p in enumerate(probes(fields, acc, ctx.seed, n_random=6)):
+        if i % 9 and i > 3:
+            continue
+        if ref is not None:
+            want = ref(p)
+            if nat is None:
+                continue
+            if want is None:
+                cases.append((dict(p), False))
+            else:
+                q = dict(p); q["national_checksum_digits"] = want
+                cases.append((q, True))
+                q2 = dict(p); q2["national_checksum_digits"] = _other_digits(want)
+                cases.append((q2, False))
+        else:
+            cases.append((dict(p), bool(vref(p))))
+    bad = None
+    for p, want in cases:
+        text = ["0"] * n
+        for c, (a, b, _) in fields.items():
+            v = p.get(c, "")
+            if len(v) == b - a:
+                text[a:b] = list(v)
+        text = "".join(text)
+
+        def thunk():
+            obj = Obj(bban_cls, strval=text)
+            obj.attrs["country_code"] = cc
+            return it.call(it.getattr(obj, "validate_national_checksum"), [], {})
+
+        try:
+            outs = [o for o in it.explore(thunk, max_paths=50) if o.kind != "infeasible"]
+        except (CannotEvaluate, PathLimit) as e:
+            raise AnalysisError(f"cannot evaluate BBAN.validate_national_checksum on {cc} {text}: {e}")
+        if len(outs) != 1:
+            raise AnalysisError(f"BBAN.validate_national_checksum is not deterministic on {cc} {text}")
+        o = outs[0]
+        got = True if (o.kind == "return" and o.value is True) else (False if (o.kind == "raise" and is_library_exc(prog, o.value)) else None)
+        if got is not want and bad is None:
+            shown = "accepted" if got is True else ("rejected" if got is False else (f"raises {o.value.name}" if o.kind == "raise" else f"returns {o.value!r}"))
+            bad = (text, want, shown)
+    rule.instance({"country": cc, "BBANs judged": len(cases)})
+    if bad:
+        rule.finding(f"{cc}:bban-verdict", f"{cc}: BBAN {bad[0]} is {bad[2]} by BBAN.validate_national_checksum; by the published algorithm it is "
+                     f"{'valid' if bad[1] else 'invalid'}", prog.get("schwifty.bban.BBAN.validate_national_checksum").where, witness=bad[0])
 
 
 def _install_bank_model(it, ctx, cc):
